@@ -56,11 +56,14 @@ CLAIMED["C14"] = dict(
     text="Coq theorems about the Gallina transcription of src/si/time.rs at float storage of any precision <= 60 bits: the conversion never "
          "reaches Duration::new's panic (carry cannot overflow: integer argument on the float representation), strictly negative stored "
          "values report NegativeDuration in every base unit, NaN reports Overflow, Ok results are well-formed; to_u64/to_u32 accept exactly "
-         "-1 < x < 2^bits; tie: bit-exact correspondence of the extracted model with Duration::try_from / Time::try_from for f32/f64 in five "
-         "time base units over boundary classes (2^64, whole seconds +-2 ulps, tiny negatives, -0.0, NaN, inf), integer storage in range, and "
-         "an exact-rational spec checker (1 ns + few ulps)",
-    note=TB + "accuracy (1 ns + few ulps) is decided per case by exact arithmetic, not by a general theorem; integer storage by spec checker only; "
-         "known finding: i32 storage with a base unit longer than 2.147 s panics",
+         "-1 < x < 2^bits; accuracy theorems for both directions (1 ns + ulp-sized terms) under computable premises; at primitive-integer "
+         "storage (Model/DurationW.v over the width-checked Ratio<iN>): negative => NegativeDuration, an Ok result is the exact seconds truncated "
+         "with zero nanoseconds, and the known finding as a theorem (i32 with the hour as base unit panics for every non-negative value); "
+         "tie: bit-exact correspondence of the extracted model with Duration::try_from / Time::try_from for f32/f64 in five time base units over "
+         "boundary classes (2^64, whole seconds +-2 ulps, tiny negatives, -0.0, NaN, inf) and for i64/u64/i32 over the WHOLE range of the type "
+         "in four base units including which cases panic; the function bodies are pinned (Spec/BodyTie.v); an exact-rational spec checker",
+    note=TB + "known findings: at integer storage the conversion panics when an intermediate Ratio<iN> overflows (class integer-intermediate-overflow = "
+         "exactly the inputs on which the width-checked model overflows; i32-long-base-unit is the extreme case); num-rational is modelled, not verified",
     technique="Coq proof + extracted-model correspondence + exact oracle")
 
 CLAIMED["C11"] = dict(
